@@ -166,3 +166,78 @@ def quote_atom(s):
     if '\\' in s:
         return None
     return "'" + s.replace("'", "\\'") + "'"
+
+# ------------------------------------------------------------------ characters that Python may read as ASCII identifier characters
+
+import functools
+
+_ASCII_ID = frozenset('ABCDEFGHIJKLMNOPQRSTUVWXYZabcdefghijklmnopqrstuvwxyz0123456789_')
+
+@functools.lru_cache(None)
+def unicode_classes():
+    """Non-ASCII characters (BMP and the supplementary multilingual plane, computed from this interpreter's Unicode tables,
+    nothing is listed by hand) that some layer of Python may take for - or turn into - an ASCII identifier character:
+      case_ascii          a case mapping (lower/upper/casefold/title/swapcase) consists of ASCII letters/digits/underscore only
+      case_ascii_prefix   a case mapping starts with one
+      re_ignorecase       matched by the ASCII classes [a-z0-9_] under re.IGNORECASE
+      norm_ascii          a normal form (NFKC/NFKD/NFC/NFD) consists of ASCII letters/digits/underscore only
+      norm_ascii_prefix   a normal form starts with one
+      ident_renamed       legal in a Python identifier, and NFKC (which Python applies to identifiers) changes it
+      decimal_digit       str.isdecimal / isdigit (int() reads them)
+      ident_start         legal as the first character of a Python identifier
+      ident_cont          legal only inside a Python identifier
+    -> dict name -> tuple of characters."""
+    import unicodedata as U
+    rx = re.compile(r'[a-z0-9_]', re.IGNORECASE)
+    cl = {k: [] for k in ('case_ascii', 'case_ascii_prefix', 're_ignorecase', 'norm_ascii', 'norm_ascii_prefix', 'ident_renamed',
+                          'decimal_digit', 'ident_start', 'ident_cont')}
+    for cp in list(range(0x80, 0xD800)) + list(range(0xE000, 0x20000)):
+        c = chr(cp)
+        if U.category(c) == 'Cn':
+            continue
+        forms = [f for f in (c.lower(), c.upper(), c.casefold(), c.title(), c.swapcase()) if f and f != c]
+        if any(all(x in _ASCII_ID for x in f) for f in forms): cl['case_ascii'].append(c)
+        elif any(f[0] in _ASCII_ID for f in forms): cl['case_ascii_prefix'].append(c)
+        if rx.fullmatch(c): cl['re_ignorecase'].append(c)
+        nfkc = U.normalize('NFKC', c)
+        forms = [f for f in (nfkc, U.normalize('NFKD', c), U.normalize('NFC', c), U.normalize('NFD', c)) if f and f != c]
+        if any(all(x in _ASCII_ID for x in f) for f in forms): cl['norm_ascii'].append(c)
+        elif any(f[0] in _ASCII_ID for f in forms): cl['norm_ascii_prefix'].append(c)
+        start = c.isidentifier()
+        cont = start or ('a' + c).isidentifier()
+        if cont and nfkc != c: cl['ident_renamed'].append(c)
+        if c.isdecimal() or c.isdigit(): cl['decimal_digit'].append(c)
+        if start: cl['ident_start'].append(c)
+        elif cont: cl['ident_cont'].append(c)
+    return {k: tuple(v) for k, v in cl.items()}
+
+SMALL_CLASS = 40      # classes with at most this many members are enumerated completely by the fixed cases
+
+def identifier_lookalikes_small():
+    """every character of the small classes (sorted, without duplicates)"""
+    out = []
+    for k, v in unicode_classes().items():
+        if len(v) <= SMALL_CLASS:
+            for c in v:
+                if c not in out: out.append(c)
+    return sorted(out)
+
+def rnd_lookalike_char(rng):
+    """a class first (so that a class of three characters is met as often as one of sixty thousand), then a member"""
+    cl = unicode_classes()
+    names = [k for k in sorted(cl) if cl[k]]
+    return rng.choice(cl[rng.choice(names)])
+
+def rnd_mixed_name(rng):
+    """an otherwise ASCII identifier with one or two such characters put at the front, inside or at the end (replacing or inserted)"""
+    first = 'abcdefghijklmnopqrstuvwxyzABCDEFGHIJKLMNOPQRSTUVWXYZ_'
+    rest = first + '0123456789'
+    s = [rng.choice(first)] + [rng.choice(rest) for _ in range(rng.choice([0, 1, 2, 3, 5, 8]))]
+    for _ in range(rng.choice([1, 1, 1, 2])):
+        c = rnd_lookalike_char(rng)
+        pos = 0 if rng.random() < 0.4 else rng.randrange(len(s) + 1)
+        if rng.random() < 0.5 and pos < len(s):
+            s[pos] = c
+        else:
+            s.insert(pos, c)
+    return ''.join(s)
